@@ -29,6 +29,9 @@ BIG_FULL = "\n".join(("+--+ %04d text here" % i) + "\n|  | .-. \n+--+ '-' " for 
 BIG = BIG_FULL[:6000] if (len(sys.argv) > 2 and sys.argv[2] == "quick") else BIG_FULL
 CJK = "┌──┐ 一二三\n│é │\n└──┘"
 FFFD = "a \ufffd b\n+--+ \ufffd"
+# a body that begins with a byte order mark and has CRLF line ends, leading blank lines, indentation and trailing blanks:
+# whatever the server "tidies" before handing the text to the library changes the answer
+EDGES = "\ufeff\r\n\n  +--+\r\n  |ab|\r\n  +--+ \ufeff\r\n\n\n \t\n"
 
 
 def chunked(body, piece=7):
@@ -89,6 +92,7 @@ def kinds(docs):
         "post-cjk": (post(CJK.encode()), CJK.encode(), 200, docs[CJK]),
         # a valid body that contains the replacement character itself
         "post-fffd": (post(FFFD.encode()), FFFD.encode(), 200, docs[FFFD]),
+        "post-raw-edges": (post(EDGES.encode()), EDGES.encode(), 200, docs[EDGES]),
         # the same small diagram sent with chunked transfer encoding (no Content-Length)
         "post-chunked": (b"POST / HTTP/1.1\r\nHost: t\r\nTransfer-Encoding: chunked\r\nConnection: close\r\n\r\n", chunked(SMALL.encode()), 200, docs[SMALL]),
         "post-dense-unicode": (post(DENSE.encode()), DENSE.encode(), 200, docs[DENSE]),
@@ -333,8 +337,8 @@ def interleavings(n_clients, n_events):
 def main():
     mode = sys.argv[1]
     build_binaries()
-    docs = library_docs([SMALL, "", HOSTILE, BIG, CJK, ATLIMIT, DENSE, FFFD])
-    if any(v is None for v in docs.values()) or len(docs) != 8:
+    docs = library_docs([SMALL, "", HOSTILE, BIG, CJK, ATLIMIT, DENSE, FFFD, EDGES])
+    if any(v is None for v in docs.values()) or len(docs) != 9:
         print("MACHINERY-ERROR: cannot obtain the library's documents")
         sys.exit(2)
     K = kinds(docs)
@@ -558,7 +562,7 @@ def main():
         "coverage": {
             "states": len(results), "transitions": requests, "traces_validated_against_impl": requests,
             "samples": samples, "evaluations": len(results), "distinct_nontrivial": len(outcomes),
-            "rule": "(a) every sequence of up to 2 (thorough 3) requests over 12 request kinds on a fresh server, and every sequence of 3 (thorough 4 over 7 state-relevant kinds) chained on long-lived servers, each followed by a probe GET; "
+            "rule": "(a) every sequence of up to 2 (thorough 3) requests over 19 request kinds on a fresh server, and every sequence of 3 (thorough 4 over 7 state-relevant kinds) chained on long-lived servers, each followed by a probe GET; "
                     "(b) for 10 pairs (thorough also 3 triples) of request kinds every interleaving of the clients' events connect / send head / send first body half (cut inside a multi-byte character when there is one) / send second half / receive (252 orders for two clients; 34650 for three clients with 4 events), performed deterministically on raw sockets. "
                     "(c) the server's environment: the same sequences and a run of 1600 (thorough 6000) requests on a server whose standard output is a pipe nobody reads, and one whose reader has gone away; a server limited to 64 descriptors facing 200 idle connections, then ordinary requests. "
                     "Every response is compared with the per-request model (200 + the library's to_svg document, 400, 413, 405, 404, version string). distinct_nontrivial = distinct request sequences / kind tuples",
